@@ -129,6 +129,8 @@ ReplaceOp(M, i, k, m) ==                                         \* replace(cons
       c0 == Len(v) + 10 * Len(rp)
       res == ReplaceAll(v, nd, rp)
   IN IF over THEN [M2 EXCEPT !.err = "strstr-past-text"]
+     \* an empty needle: the loop as first written never ends (strstr(p, "") = p on every round); repaired: unchanged
+     ELSE IF nd = <<>> THEN (IF Orig THEN [M2 EXCEPT !.err = "replace-with-empty-needle-never-returns"] ELSE M2)
      ELSE IF IndexFrom(v, nd, 0) = -1 THEN M2
      ELSE IF Len(res) > c0 THEN [M2 EXCEPT !.err = "model-assumption: result fits its initial capacity"]
      ELSE Dtor(AssignOp(Alloc(M2, T2, res, c0, TRUE), i, T2), T2) \* String result(c0); appends; return *this = result;
@@ -191,7 +193,8 @@ IDo(op, i, k, m, d, n, n2) ==
      /\ (IBound \/ (op = "clear" /\ Len(st.val[i]) > MaxLen))
      /\ InDomain(op, st, a)
      /\ rep' = C.rep /\ blk' = C.blk /\ err' = (IF err # "none" THEN err ELSE R.err) /\ xm' = xm
-     /\ \E o \in Step(op, st, a) : st' = o
+     \* (where Layer 1 leaves a choice - replace with an empty needle - the ghost follows this implementation's: unchanged)
+     /\ \E o \in Step(op, st, a) : st' = o /\ ((op = "replace" /\ st.val[k] = <<>>) => o.val[i] = st.val[i])
 
 IInit == /\ rep = [h \in Slots |-> IF h \in Vars THEN EmptyH ELSE Dead] /\ blk = <<>> /\ xm = ExtInit /\ err = "none"
          /\ st = [Init0 EXCEPT !.ext = ExtInit]
